@@ -7,3 +7,4 @@ mod h_ord;
 mod h_int;
 mod h_disp;
 mod h_div;
+mod h_pi;
